@@ -320,7 +320,7 @@ pub fn c01_oracle(sc: &SchedConvCase, so: &SchedObs) -> vcore::runner::Verdict {
         return vcore::runner::fail("C01/no-end-of-stream", "all requests answered and the client half-closed, but the server never closed its sending side");
     }
     let inv = inversions(&so.enter_seq);
-    let mut g = if inv >= 1 { Good { nontrivial: Some(so.exec.stats.trace_hash), classes: vec![] } } else { Good::trivial() };
+    let mut g = if inv >= 1 { Good { nontrivial: Some(so.exec.stats.trace_hash), classes: vec![], extra_evals: 0 } } else { Good::trivial() };
     g = g
         .class(format!("n={}", sc.case.conv.reqs.len()))
         .class(format!("inversions={}", inv.min(6)))
